@@ -733,6 +733,7 @@ func (c *Ctx) c10NoMemory(pm *pairModel, storeT, mboxT *types.Named, readIndex *
 		}
 	}
 	isRead = isLoad
+	nLocal := 0 // accesses in function literals that load the index themselves
 	for _, fn := range pkgFuncs(p, fileRel) {
 		if pm.onLoadPath(fn, readIndex) {
 			continue
@@ -744,6 +745,16 @@ func (c *Ctx) c10NoMemory(pm *pairModel, storeT, mboxT *types.Named, readIndex *
 					// an access inside a function literal is attributed to the instruction
 					// of the enclosing function that creates the literal
 					owner, at := fn, ssa.Instruction(in)
+					// … unless the literal loads the index itself before the access (a critical
+					// section handed to a lock gate: mb.update(func() error { if !mb.indexLoaded { readIndex } … }))
+					if fn.Parent() != nil {
+						this := ssa.Instruction(in)
+						if (&eng.Search{Target: func(x ssa.Instruction) bool { return x == this }, Avoid: isRead,
+							Edge: func(b *ssa.BasicBlock, k int) bool { return !loadedTrueEdge(b, k) }}).FromEntry(fn) == nil {
+							nLocal++
+							return
+						}
+					}
 					for owner.Parent() != nil {
 						var mk ssa.Instruction
 						eng.EachInstr(owner.Parent(), func(x ssa.Instruction) {
@@ -761,7 +772,7 @@ func (c *Ctx) c10NoMemory(pm *pairModel, storeT, mboxT *types.Named, readIndex *
 			}
 		})
 	}
-	readers := len(accesses)
+	readers := len(accesses) + nLocal
 	// fixpoint: a function is guarded if every path from entry to an access passes
 	// readIndex or a call of an already guarded function (bypass only via indexLoaded==true)
 	for changed := true; changed; {
